@@ -94,6 +94,9 @@ def _join_attachment(ns_soap_env, href_id, envelope, payload, prefix=True,
             message = child
             break
 
+    if message is None:
+        raise ValidationError(None, "SOAP Body has no message element")
+
     idprefix = ''
 
     if prefix:
@@ -101,9 +104,12 @@ def _join_attachment(ns_soap_env, href_id, envelope, payload, prefix=True,
     href_id = "%s%s" % (idprefix, href_id,)
 
     num = 0
-    xpath = ".//xop:Include[@href=\"{}\"]".format(href_id)
+    # the id is request content: it goes in as an xpath variable, not as text
+    # of the expression (a quote in it made the expression invalid)
+    xpath = ".//xop:Include[@href=$href_id]"
 
-    for num, node in enumerate(message.xpath(xpath, namespaces=XPATH_NSDICT)):
+    for num, node in enumerate(message.xpath(xpath, namespaces=XPATH_NSDICT,
+                                                              href_id=href_id)):
         parent = node.getparent()
         parent.remove(node)
         parent.text = payload
@@ -190,8 +196,11 @@ def collapse_swa(ctx, content_type, ns_soap_env, parser=None):
         else:
             payload = part.get_payload()
 
-        cid = (part.get("Content-ID") or "").strip("<>")
+        # a header with non-ascii bytes is an email.header.Header, not a str
+        cid = str(part.get("Content-ID") or "").strip("<>")
         cloc = part.get("Content-Location")
+        if cloc is not None:
+            cloc = str(cloc)
         numreplaces = None
 
         # Check for Content-ID and make replacement
